@@ -21,6 +21,7 @@ def gen_script(rng):
     calls = []          # call no -> dict(short, state: pending/replied/timeout/notconn, sentidx)
     sent = []           # call numbers whose request reached the peer
     connected = True
+    wclosed = False     # the application closed the connection object; the peer's socket is still open
     unsafe = False      # a short call is pending and has not expired yet
 
     def reply(i_sent, body):
@@ -36,11 +37,11 @@ def gen_script(rng):
             variant = "S" if short else rng.choice(["L", "L", "X", "X", "Y", "Z"])
             steps.append("rpc %s %s %s %d %s" % (variant, hx(b"erlang"), hx(rng.choice([b"node", b"self", b"is_alive"])), 1, etf.show(arg)))
             calls.append({"short": short})
-            if connected and not bad:
+            if connected and not bad and not wclosed:
                 sent.append(len(calls) - 1)
-            if short and connected and not bad:
+            if short and connected and not bad and not wclosed:
                 steps.append("expire")
-            if variant in ("Y", "Z") and connected and not bad:
+            if variant in ("Y", "Z") and connected and not bad and not wclosed:
                 if rng.random() < 0.25:
                     steps.append("reply @%d %s" % (len(sent) - 1, etf.show(rng.choice([("a", b"not_rex"), ("t", [("a", b"rex")]), ("t", [("a", b"xer"), ("i", 1)]), ("t", [("a", b"rex"), ("i", 1), ("i", 2)])]))))
                 else:
@@ -71,6 +72,9 @@ def gen_script(rng):
         elif r < 0.94 and connected:
             steps.append(rng.choice(["close", "overlong"]))
             connected = False
+        elif r < 0.97 and connected and not wclosed:
+            steps.append("lclose")
+            wclosed = True
     steps += ["sync", "results", "pending", "expire", "results", "pending", "conns"]
     return SEP.join(["node 1"] + steps)
 
@@ -82,7 +86,7 @@ def oracle(case, impl):
     outs = impl.split(SEP)
     if len(outs) != len(steps):
         return ("violation", "%d steps, %d results" % (len(steps), len(outs)))
-    calls, sent, connected = [], [], True
+    calls, sent, connected, wclosed = [], [], True, False
     printed = set()
     for k, (s, o) in enumerate(zip(steps, outs)):
         t = etf.Toks(s)
@@ -91,10 +95,10 @@ def oracle(case, impl):
             variant = t.next()
             short = variant == "S"
             bad = ("61" * 70000) in s
-            calls.append({"short": short, "unwrap": variant in ("X", "Y"), "state": "notconnected" if not connected else "sendfailed" if bad else "pending"})
-            if connected and not bad:
+            calls.append({"short": short, "unwrap": variant in ("X", "Y"), "state": "notconnected" if not connected else "sendfailed" if (bad or wclosed) else "pending"})
+            if connected and not bad and not wclosed:
                 sent.append(len(calls) - 1)
-            want = "ok" if connected and not bad else "err"
+            want = "ok" if connected and not bad and not wclosed else "err"
             if o != want:
                 return ("violation", "step %d: starting a call %s" % (k, "failed on a live connection" if want == "ok" else "did not fail although its request cannot be sent"))
         elif op == "reply":
@@ -110,6 +114,8 @@ def oracle(case, impl):
                     c["state"] = "timeout"
         elif op in ("close", "overlong"):
             connected = False
+        elif op == "lclose":
+            wclosed = True
         elif op == "results":
             got = [] if o == "-" else o.split(" , ")
             todo = [i for i in range(len(calls)) if i not in printed]
